@@ -34,6 +34,7 @@ type FuncContract struct {
 	Given    []Clause // facts about package tables, assumed at entry and proved by the package's "tables" unit (not callers' obligations)
 	Ensures  []Clause
 	Loops    map[int][]Clause
+	UnrollLoops   map[int]bool   // loop ordinal -> the loop is executed iteration by iteration, not cut: every evaluation of its condition must fold to a constant (reflection over a statically known struct type); a visit budget stops anything else
 	AbstractLoops map[int]string // loop ordinal -> reason: the body is not executed; its clauses are assumed at the exit (listed in evidence, covered by a bounded stand-in)
 	Inline   []string
 	Trusted  bool
@@ -437,6 +438,12 @@ func (cs *ContractSet) LoadLines(path string, lines []string, lineNos []int, pkg
 					cur.AbstractLoops = map[int]string{}
 				}
 				cur.AbstractLoops[loop] = strings.TrimSpace(r)
+			}
+			if strings.TrimSpace(more) == "unroll" {
+				if cur.UnrollLoops == nil {
+					cur.UnrollLoops = map[int]bool{}
+				}
+				cur.UnrollLoops[loop] = true
 			}
 		case kw == "requires" || kw == "ensures" || kw == "invariant" || kw == "given" || kw == "watch" || kw == "abstracts" || kw == "assume":
 			if err := needCur(); err != nil {
